@@ -3,7 +3,7 @@
 -/
 import GIV.Lemmas.ParWorkTerm
 namespace GIV.ParWork
-open GIV.Gen.Par
+open GIV.Gen.ParWork
 
 def Lc (c : Cfg) : Nat := 6 + 2 * c.n
 def fI (c : Cfg) (x : Nat) : Nat := 3 * (c.children x).length + 1 + Lc c
